@@ -113,12 +113,104 @@ func (it *Interp) syncOp(name string, args []Value) Value {
 		p := args[0].(*Value)
 		if it.rm.onceDone == nil {
 			it.rm.onceDone = map[*Value]bool{}
+			it.rm.onceRunning = map[*Value]int{}
+		}
+		if it.par != nil {
+			it.parYield()
+			// another goroutine is inside Do: wait until it is done
+			for {
+				owner, running := it.rm.onceRunning[p]
+				if !running || owner == it.par.cur+1 {
+					break
+				}
+				other := it.par.threads[1-it.par.cur]
+				if other.done {
+					panic(targetPanic{mkStringIface("fatal error: all goroutines are asleep - deadlock! (sync.Once)")})
+				}
+				it.parSwitch()
+			}
 		}
 		if !it.rm.onceDone[p] {
-			it.rm.onceDone[p] = true
-			it.callValue(args[1], nil)
+			if _, re := it.rm.onceRunning[p]; re {
+				panic(targetPanic{mkStringIface("fatal error: all goroutines are asleep - deadlock! (recursive sync.Once.Do)")})
+			}
+			me := 1
+			if it.par != nil {
+				me = it.par.cur + 1
+			}
+			it.rm.onceRunning[p] = me
+			it.rm.locksHeld++ // the body of Do is a critical section
+			func() {
+				defer func() {
+					it.rm.locksHeld--
+					delete(it.rm.onceRunning, p)
+					it.rm.onceDone[p] = true
+				}()
+				it.callValue(args[1], nil)
+			}()
+			if it.par != nil {
+				it.parYield()
+			}
 		}
 		return nil
+	}
+	if strings.HasPrefix(name, "sync/atomic.") {
+		op := strings.TrimPrefix(name, "sync/atomic.")
+		p, _ := args[0].(*Value)
+		if p == nil {
+			panic(runtimePanic("invalid memory address or nil pointer dereference"))
+		}
+		if it.par != nil {
+			it.parYield() // an atomic operation is a scheduling point
+		}
+		switch {
+		case strings.HasPrefix(op, "Load"):
+			return copyVal(*p)
+		case strings.HasPrefix(op, "Store"):
+			storeRaw(p, args[1]) // atomic: not an unguarded write
+			return nil
+		case strings.HasPrefix(op, "Swap"):
+			old := copyVal(*p)
+			storeRaw(p, args[1])
+			return old
+		case strings.HasPrefix(op, "CompareAndSwap"):
+			eq := eqTerm(*p, args[1])
+			b, ok := eq.(bool)
+			if !ok {
+				b = it.ex.decide(eq.(*Term))
+			}
+			if b {
+				storeRaw(p, args[2])
+			}
+			return b
+		case strings.HasPrefix(op, "Add"), strings.HasPrefix(op, "And"), strings.HasPrefix(op, "Or"):
+			cur, ok1 := (*p).(int64)
+			d, ok2 := args[1].(int64)
+			if !ok1 || !ok2 {
+				panic(abortPath{"symbolic atomic arithmetic"})
+			}
+			var nv int64
+			switch {
+			case strings.HasPrefix(op, "Add"):
+				nv = cur + d
+			case strings.HasPrefix(op, "And"):
+				nv = cur & d
+			default:
+				nv = cur | d
+			}
+			if strings.Contains(op, "32") {
+				if strings.Contains(op, "Uint") {
+					nv = normInt(nv, intRange{32, false})
+				} else {
+					nv = normInt(nv, intRange{32, true})
+				}
+			}
+			storeRaw(p, nv)
+			if strings.HasPrefix(op, "Add") {
+				return nv
+			}
+			return cur
+		}
 	}
 	panic(abortPath{"sync primitive not modelled: " + name})
 }
